@@ -15,6 +15,8 @@ type RunOpts struct {
 	Jobs     int
 	KeepDir  string
 	Verbose  bool
+	Hints    *HintDB // nil: no hints
+	Record   bool    // record unsat cores of obligations that needed the full query
 }
 
 // Discharge runs all obligations in parallel.
@@ -46,8 +48,44 @@ func Discharge(vcs []*FuncVC, opts RunOpts) {
 				if opts.KeepDir != "" {
 					os.WriteFile(opts.KeepDir+"/"+mangle(j.o.Name)+".smt2", []byte(q+"\n(check-sat)\n(get-model)\n"), 0o644)
 				}
-				r := RunQuery(opts.TmpDir, j.o.Name, q, to, solvers)
+				var r SolverResult
+				hinted := false
+				if !j.o.Cover && opts.Hints != nil {
+					for _, hs := range opts.Hints.Get(j.o.Name) {
+						sq, ok := sliceByHint(q, hs)
+						if !ok {
+							continue
+						}
+						ht := to
+						if ht > 10 {
+							ht = 10
+						}
+						hr := RunQuery(opts.TmpDir, j.o.Name+".hint", sq, ht, solvers)
+						if hr.Status == "unsat" {
+							hr.Solver += "+hint"
+							r, hinted = hr, true
+						}
+						break
+					}
+				}
+				if !hinted {
+					r = RunQuery(opts.TmpDir, j.o.Name, q, to, solvers)
+					if opts.Record && opts.Hints != nil && !j.o.Cover && r.Status == "unsat" {
+						hs, ok := extractCore(opts.TmpDir, j.o.Name, q, 2*to)
+						if !ok && r.Seconds > 1 {
+							hs, ok = shrinkCore(opts.TmpDir, j.o.Name, q, r.Seconds, solvers)
+						}
+						if ok {
+							if sq, ok := sliceByHint(q, hs); ok {
+								if cr := RunQuery(opts.TmpDir, j.o.Name+".hint", sq, 10, solvers); cr.Status == "unsat" && cr.Seconds < 5 {
+									opts.Hints.Put(j.o.Name, hs)
+								}
+							}
+						}
+					}
+				}
 				j.o.Result = r
+				j.o.Hinted = hinted
 				if j.o.Cover {
 					j.o.OK = r.Status != "unsat"
 				} else {
@@ -96,7 +134,15 @@ func cmdVC(args []string) int {
 			}
 		}
 	}
-	Discharge(vcs, RunOpts{TimeoutS: 30, Solvers: []string{"z3-new", "z3", "cvc5"}, TmpDir: tmp, Jobs: 8, KeepDir: keep})
+	ro := RunOpts{TimeoutS: 30, Solvers: []string{"z3-new", "z3", "cvc5"}, TmpDir: tmp, Jobs: 8, KeepDir: keep}
+	if os.Getenv("GOVC_NOHINTS") == "" {
+		ro.Hints = NewHintDB()
+		ro.Record = os.Getenv("GOVC_RECORD") != ""
+	}
+	Discharge(vcs, ro)
+	if ro.Hints != nil {
+		ro.Hints.Save()
+	}
 	bad := 0
 	for _, vc := range vcs {
 		sort.SliceStable(vc.obls, func(i, j int) bool { return vc.obls[i].Name < vc.obls[j].Name })
